@@ -65,13 +65,13 @@ def gen_program(rng: Any) -> dict[str, Any]:
         style = {"kind": style_kind, "n": rng.randint(0, 6), "delay": rng.choice([0.5, 1, 3]), "yields": rng.randint(0, 2)}
         tasks.append({"kind": "subscriber", "start": gen_steps(rng, rng.randint(0, 3)), "signals": sigs,
                       "filter": rng.choice([None, "all", {"mod": 2, "rem": 0}, {"mod": 3, "rem": 1}]),
-                      "q": rng.choice([0, 1, 2, 3, 5, 50]), "style": style,
+                      "q": rng.choice([0, 1, 2, 3, 5, 50]), "style": style, "falsy_filter": rng.random() < 0.3,
                       "via": "method" if len(sigs) == 1 and rng.random() < 0.6 else "function"})
     if has_waiter:
         for _ in range(rng.randint(1, 2)):
             sigs = rng.sample(chans, rng.randint(1, min(2, len(chans))))
             tasks.append({"kind": "waiter", "start": gen_steps(rng, rng.randint(0, 4)), "signals": sigs,
-                          "filter": rng.choice([None, {"mod": 2, "rem": 0}, {"mod": 3, "rem": 1}]),
+                          "filter": rng.choice([None, {"mod": 2, "rem": 0}, {"mod": 3, "rem": 1}]), "falsy_filter": rng.random() < 0.4,
                           "via": "method" if len(sigs) == 1 and rng.random() < 0.6 else "function"})
     for _ in range(rng.choice([0, 0, 1])):
         # a subscription attempt that must fail: a bound signal followed by an unbound (class-level) one
@@ -85,6 +85,12 @@ def gen_program(rng: Any) -> dict[str, Any]:
 
 
 # --------------------------------------------------------------------------- interpretation
+
+
+def falsy_callable(fn: Any) -> Any:
+    """a filter that is a callable *object* whose truth value is False (an allow-list that is a - currently empty - collection
+    with a __call__): a filter all the same"""
+    return type("AllowList", (), {"__call__": lambda self, ev: fn(ev), "__len__": lambda self: 0})()
 
 
 class ConsumerFailure(Exception):
@@ -175,7 +181,7 @@ class Run:
             self.trace.log("pull", sid, eid=ev.n)
             return passes(flt, ev.n)
 
-        f = None if flt is None else filt
+        f = None if flt is None else (falsy_callable(filt) if spec.get("falsy_filter") else filt)
         style = spec["style"]
         my_chans = [(i, self.gens[i], a) for i, a in spec["signals"]]
         self.trace.log("sub-enter-call", sid)
@@ -284,6 +290,8 @@ class Run:
         sigs = self.signals(spec["signals"])
         flt = spec["filter"]
         f = None if flt is None else (lambda ev: passes(flt, ev.n))
+        if f is not None and spec.get("falsy_filter"):
+            f = falsy_callable(f)
         self.trace.log("wait-begin", wid, chans=[(i, self.gens[i], a) for i, a in spec["signals"]])
         try:
             ev = await (sigs[0].wait_event(f) if spec["via"] == "method" else wait_event(sigs, f))
